@@ -34,7 +34,9 @@ TECHNIQUE = (
 RULE = (
     "case = one string: (i) each enumerated code point c placed in each context template, (ii) each word of <=k "
     "tokens of the markup alphabet M placed in the contexts '{}' and 'A{}B'; canonical = the string itself "
-    "(strings of (ii) already produced by (i) are skipped). Every case runs through every operation as a direct call "
+    "(strings of (ii) already produced by (i) are skipped); (v) one *sequence* per (representative character of each "
+    "class latin1-named / bmp-named / bmp-unnamed / astral / C1) x charset x order (handler first then all filters, or "
+    "filters first then handler), each in a fresh interpreter so that step 1 is the first use in the process. Every case runs through every operation as a direct call "
     "(h x u entity trim; decode.utf8/latin1/ascii on str, bytes, other object; str.encode(cs,'htmlentityreplace') for 5 "
     "charsets); the template routes (${v|f}, ${v|n,decode.X}, Template(output_encoding=cs, encoding_errors=...).render) "
     "run on every case in thorough and, in quick, on the cases of the first two contexts and all words (decode "
@@ -49,9 +51,11 @@ ASSUMPTIONS = [
     "the reference decoder knows &name; (html.entities name2codepoint / html5), &#N; and &#xH; with no HTML5 remapping; html.unescape is used as a second decoder only where it does not remap",
     "decode.<enc> on bytes that are not valid in <enc> is DONT_CARE (UnicodeDecodeError or any str accepted)",
     "CPython str, re, codecs, html, urllib.parse are trusted",
+    "process history: the grid runs in long-lived workers (any order-dependent failure is located by core.find_prelude and reported with its prelude); order independence itself is checked on the sequence family only (one earlier step, 5/20 representative characters), not for every pair of cases",
 ]
 BOUNDS = {
     "quick": {
+        "sequences": "5 characters (one per class, picked by the seed) x 5 charsets x 2 orders = 50 fresh interpreters",
         "code_points": "U+0000..U+FFFF minus surrogates + first and last 256 of planes 1..16 (71680)",
         "contexts": ["{}", "A{}B", "{}{}", "&{};", " {}\n"],
         "word_len": 3,
@@ -61,6 +65,7 @@ BOUNDS = {
         "charsets": ["ascii", "latin-1", "cp1251", "shift_jis", "utf-8"],
     },
     "thorough": {
+        "sequences": "20 characters (4 per class) x 5 charsets x 2 orders = 200 fresh interpreters",
         "code_points": "every Unicode scalar value U+0000..U+10FFFF minus surrogates (1112064)",
         "contexts": ["{}", "A{}B", "{}{}", "&{};", " {}\n", "<{}>", "{}A{}", "&#{};"],
         "word_len": 4,
@@ -377,7 +382,7 @@ def o_entity(s, out, unescape):
             i = m.end()
         else:
             if not out.startswith(c, i):
-                return ("unnamed character changed %s" % _cls(c), "a character without a named entity is altered")
+                return ("unnamed character changed", "a character without a named entity is altered (%s)" % _cls(c))
             i += 1
     if i != len(out):
         return ("extra output", "extra output")
@@ -561,7 +566,7 @@ def full_sig(op, sig):
 MODNAME = "mc.props.c10"
 AFTER_ENC = ":after an earlier htmlentityreplace encode in the process"
 AFTER_CASE = ":after an earlier case in the process"
-MAX_PRELUDE_SEARCHES = 6  # per job
+MAX_PRELUDE_SEARCHES = 6  # per worker process
 _HIST = __import__("collections").deque(maxlen=40)  # the last cases of this process (across jobs)
 
 
@@ -569,7 +574,7 @@ def report_grid(s, viol, st, I, hist):
     """report the failures of one grid case.  The filters must not depend on what the process did
     before, but a long-lived worker has a history: a failure is reported together with the shortest
     prelude (nothing, or one earlier case) after which it reproduces in a fresh interpreter."""
-    memo = I.setdefault("prelude_memo", {})
+    memo = I.setdefault("prelude_memo", {})  # per worker process: one footprint is located once
     for op, route, sig, msg, observed in viol:
         full = full_sig(op, sig)
         case = {"s": s, "op": op, "route": route, "seed": I["seed"]}
@@ -707,7 +712,7 @@ def check_sequences(pairs, seed, st):
                 handler = "handler idle"
             except UnicodeEncodeError:
                 handler = "handler runs"
-                st.nontrivial += 1
+            st.nontrivial += 1  # every sequence carries a non-ASCII character
             st.outcomes["seq:%s:%s:%s:%s" % (order, cls, handler, "fails" if r["fails"] else "ok")] += 1
             st.extra["sequences"] = st.extra.get("sequences", 0) + 1
         # a failure that also happens as the very first step of a process is not order-dependent
@@ -758,8 +763,7 @@ def run_job(job):
     I = impl(seed)
     I["seed"] = seed
     I["hist"] = _HIST
-    I["prelude_searches"] = 0
-    I["prelude_memo"] = {}
+    I.setdefault("prelude_searches", 0)
     I["dec_templates"] = BOUNDS[tier]["decode_template_routes"]
     d = I["d"]
     ctxs = contexts(tier, d)
@@ -821,8 +825,12 @@ def post(tier, seed, st):
 def replay(case):
     """grid case {s, op, route[, parts]}: plain calls in this process (op absent = run everything, as a prelude does);
     sequence case {kind: seq, ...}: the sequence again in a fresh interpreter.
-    A 'prelude' key is handled by the caller (core.finish / core.isolated_replay run the prelude first)."""
+    A case carrying 'prelude' is run in a fresh interpreter, its prelude cases first."""
     seed = case.get("seed", 0)
+    if case.get("prelude") is not None:
+        bare = {k: v for k, v in case.items() if k != "prelude"}
+        ok = core.isolated_replay(MODNAME, list(case["prelude"]) + [bare])
+        return ok, {False: "reproduced after its prelude, in a fresh interpreter", True: "holds", None: "replay failed"}[ok]
     if case.get("kind") == "seq":
         r = sequence_in_child({k: case[k] for k in ("kind", "c", "cs", "order", "seed")})
         for f in r["fails"]:
